@@ -2,8 +2,8 @@ package rules
 
 func init() {
 	reg("C02", &PropSpec{
-		Rules:       []Rule{r("E1", RuleE1), r("E2b", RuleE2b), r("E3i", RuleE3i), r("SB1", RuleSB1), r("B1", RuleB1), r("U1", RuleU1), r("S1d", RuleS1("S1d")), r("PF1", RulePF1), r("EL1", RuleEL1), r("IT1", RuleIT1)},
-		Explanation: "Structural necessary conditions for well-located diagnostics, decided at every error construction site: file and index come from one object, through wrappers; the one wrapper that pairs the current scanner's file with a caller-supplied index is unreachable after the scan stage (E1/E2a); every error gets its include trace - via the directive's tracer or the scan stage's defer (E2b); the include-tracer cache key covers everything the cached tracer is built from (E3i); body positions are never combined with an unset body (B1); line arithmetic is defined for the empty file and scanner indices never underflow (U1, S1d). Not decided: that line/quote arithmetic computes the right line for every newline convention; that a library position is relative to the directive's own body when errors are re-attributed. The include stack and its per-level hashes grow and shrink in lockstep (PF1). In a loop over elements that carry a directive an error is reported at the element's own directive (EL1); the position stored with a suspended scanner is the INCLUDE keyword's (IT1).",
+		Rules:       []Rule{r("E1", RuleE1), r("E2b", RuleE2b), r("E3i", RuleE3i), r("SB1", RuleSB1), r("B1", RuleB1), r("U1", RuleU1), r("S1d", RuleS1("S1d")), r("PF1", RulePF1), r("EL1", RuleEL1), r("IT1", RuleIT1), r("HK1", RuleHK1), r("NL1", RuleNL1)},
+		Explanation: "Structural necessary conditions for well-located diagnostics, decided at every error construction site: file and index come from one object, through wrappers; the one wrapper that pairs the current scanner's file with a caller-supplied index is unreachable after the scan stage (E1/E2a); every error gets its include trace - via the directive's tracer or the scan stage's defer (E2b); the include-tracer cache key covers everything the cached tracer is built from (E3i); body positions are never combined with an unset body (B1); line arithmetic is defined for the empty file and scanner indices never underflow (U1, S1d). Not decided: that line/quote arithmetic computes the right line for every newline convention; that a library position is relative to the directive's own body when errors are re-attributed. The include stack and its per-level hashes grow and shrink in lockstep (PF1). In a loop over elements that carry a directive an error is reported at the element's own directive (EL1); the position stored with a suspended scanner is the INCLUDE keyword's (IT1). A level of the include stack is identified in the tracer cache by the hash of the file's name as given, untransformed (HK1), and every position-to-line helper is given the line break detected in the very content it measures (NL1): the include chain of a diagnostic names the right files and the right INCLUDE lines whatever the directory layout and line-end style.",
 		Trusted:     trustedCommon,
 	})
 }
